@@ -259,6 +259,19 @@ def _drop(tree, rng, top=True):
     return out
 
 
+def _dropnested(tree, top=True):
+    """drop every placeholder nested in another placeholder (keeps the parents)"""
+    out = []
+    for n in tree:
+        if n[0] == 'ph':
+            if not top:
+                continue
+            out.append(['ph', n[1], _dropnested(n[2], False)])
+        else:
+            out.append(n)
+    return out
+
+
 def make_catalogue(kind, seed):
     import random
 
@@ -279,6 +292,8 @@ def make_catalogue(kind, seed):
             tree = _drop(tree, rng)
         elif kind == 'permdrop':
             tree = _drop(_perm(tree, rng), rng)
+        elif kind == 'dropnested':
+            tree = _dropnested(tree)
         else:
             raise ValueError(kind)
         return unparse_translation(tree)
@@ -305,9 +320,10 @@ class Ref(object):
     include_attrs / extract_text so that plain text and attributes are translated where the
     documentation says they are"""
 
-    def __init__(self, f, cfg, translate_plain=True):
+    def __init__(self, f, cfg, translate_plain=True, identity=False):
         self.f = f
         self.cfg = cfg
+        self.identity = identity
         self.translate_plain = translate_plain and cfg.get('extract_text', True)
         self.lookups = []      # msgids the reference looked up (with the letter filter applied by the caller)
 
@@ -345,8 +361,32 @@ class Ref(object):
                 return True
         return False
 
+    def trimmed(self, kids, skip):
+        """identity catalogue: the content itself, white space at its two edges removed; this
+        does not go through the message format at all"""
+        kids = list(kids)
+        if kids and kids[0][0] == 't':
+            kids[0] = ['t', kids[0][1].lstrip()]
+            if not kids[0][1]:
+                kids.pop(0)
+        if kids and kids[-1][0] == 't':
+            kids[-1] = ['t', kids[-1][1].rstrip()]
+            if not kids[-1][1]:
+                kids.pop()
+
+        def inner(n):
+            if n[0] == 'e':
+                return ['e', n[1], self.attrs(n, skip), [d for d in n[3] if not d[0].startswith('i18n:')],
+                        [inner(k) for k in n[4]]]
+            if n[0] == 'd':
+                return ['d', n[1], n[2], [inner(k) for k in n[3]]]
+            return n
+        return [inner(k) for k in kids]
+
     def message(self, kids, params, skip):
         """content of a msg directive / choose branch -> translated content"""
+        if self.identity:
+            return self.trimmed(kids, skip)
         m = Msg(kids, params)
         trans = self.tr(m.string)
         tree = parse_translation(trans)
@@ -424,17 +464,13 @@ class Ref(object):
 
     def branches(self, sing, plur, numeral, params, skip):
         out = []
-        ms = Msg(sing[4] if sing[0] == 'e' else sing[3], params)
-        mp = Msg(plur[4] if plur[0] == 'e' else plur[3], params) if plur is not None else None
-        for which, n, m in (('s', sing, ms), ('p', plur, mp)):
+        for which, n in (('s', sing), ('p', plur)):
             if n is None:
                 continue
             cond = '%s == 1' % numeral if which == 's' else '%s != 1' % numeral
             # the catalogue is asked with (singular id, plural id, n); an identity-like family answers
             # f(singular) for n == 1 and f(plural) otherwise
-            self.lookups.append(m.string)
-            tree = parse_translation(self.f(m.string))
-            content = rebuild(tree, m, lambda e: self.attrs(e, skip))
+            content = self.message(n[4] if n[0] == 'e' else n[3], params, skip)
             if n[0] == 'e':
                 pydirs = [d for d in n[3] if not d[0].startswith('i18n:')]
                 out.append(['d', 'py:if', [['test', cond]],
@@ -444,8 +480,8 @@ class Ref(object):
         return out
 
 
-def reference(tree, f, cfg):
-    r = Ref(f, cfg)
+def reference(tree, f, cfg, identity=False):
+    r = Ref(f, cfg, identity=identity)
     return r.nodes(tree, False), r
 
 
